@@ -11,7 +11,8 @@ func init() { register("C06", c06) }
 // C06 re-runs the drivers of the other properties with the wire-protocol
 // automaton as the only reporting oracle.
 func c06(tier string) []*explore.Scenario {
-	return donors("C06", c01(tier), c02(tier), c11(tier), c07(tier), c03(tier), c04(tier), c09(tier), c14idle(tier), apiSeqs("C06", tier), handlerSeqs("C06", tier))
+	return donors("C06", c01(tier), c02(tier), c11(tier), c07(tier), c03(tier), c04(tier), c09(tier), c14idle(tier), apiSeqs("C06", tier), handlerSeqs("C06", tier),
+		[]*explore.Scenario{expiredStream("C06", "none", 1), expiredStream("C06", "stop", 1)})
 }
 
 // the idle-fixpoint scenarios of C14 (not its long history)
